@@ -1080,4 +1080,260 @@ theorem argsort_stable (ks : List Int) (i j : Nat) (hij : i < j) (hj : j < ks.le
   simpa [argsort] using h2
 
 
+/-! ### the column interpreter refines the row interpreter (audit review #21) -/
+
+theorem step_width (cols r : Cols α) (op : Op α) (h : step cols op = some r) : cols.length ≤ r.length := by
+  cases op with
+  | take ix => obtain ⟨_, rfl⟩ := take_some ix cols r h; simp
+  | mask m =>
+    simp only [step, mask] at h
+    split at h
+    · obtain ⟨_, rfl⟩ := take_some _ cols r h; simp
+    · simp at h
+  | concat o =>
+    simp only [step] at h
+    split at h
+    · rename_i hc
+      simp only [Bool.and_eq_true, beq_iff_eq] at hc
+      simp only [Option.some.injEq] at h; subst h
+      simp [concat, hc.2]
+    · simp at h
+  | concatL o =>
+    simp only [step] at h
+    split at h
+    · rename_i hc
+      simp only [Bool.and_eq_true, beq_iff_eq] at hc
+      simp only [Option.some.injEq] at h; subst h
+      simp [concat, hc.2]
+    · simp at h
+  | sortBy j key =>
+    simp only [step, sortBy] at h
+    split at h
+    · simp at h
+    · obtain ⟨_, rfl⟩ := take_some _ cols r h; simp
+  | predMask j p =>
+    simp only [step, predMask, mask] at h
+    split at h
+    · simp at h
+    · split at h
+      · obtain ⟨_, rfl⟩ := take_some _ cols r h; simp
+      · simp at h
+  | replace j c =>
+    simp only [step, replaceCol] at h
+    split at h
+    · simp only [Option.some.injEq] at h; subst h; simp
+    · simp at h
+  | addFields new =>
+    simp only [step, addFields] at h
+    split at h
+    · simp only [Option.some.injEq] at h; subst h; simp
+    · simp at h
+
+theorem take_eq_some (ix : List Nat) (cols : Cols α) (h : ∀ i ∈ ix, i < nrows cols) :
+    take ix cols = some (cols.map (gather ix)) := by
+  unfold take
+  rw [if_pos (by simpa using h)]
+
+/-- for a table with at least two fields, or when another field than the only one is replaced, the constructor's
+length check on the replaced table is: the new column has as many cells as the table has rows -/
+theorem wfB_set_iff (n : Nat) (cols : Cols α) (j : Nat) (c : List α) (h : WFn n cols) (hj : j < cols.length)
+    (h2 : 2 ≤ cols.length) : wfB (cols.set j c) = true ↔ c.length = n := by
+  rw [wfB_iff]
+  constructor
+  · intro hw
+    -- another column k ≠ j keeps its length n; the first column fixes nrows
+    obtain ⟨k, hk, hkj⟩ : ∃ k, k < cols.length ∧ k ≠ j := by
+      by_cases h0 : j = 0
+      · exact ⟨1, by omega, by omega⟩
+      · exact ⟨0, by omega, by omega⟩
+    have hkl : ((cols.set j c)[k]'(by simpa using hk)).length = nrows (cols.set j c) :=
+      hw _ (List.getElem_mem _)
+    have hjl : ((cols.set j c)[j]'(by simpa using hj)).length = nrows (cols.set j c) :=
+      hw _ (List.getElem_mem _)
+    rw [List.getElem_set_ne (by omega)] at hkl
+    rw [List.getElem_set_self] at hjl
+    have := h cols[k] (List.getElem_mem _)
+    omega
+  · intro hc
+    exact wf_of_wfn n _ (wfn_set n cols j c h hc)
+
+theorem nrows_append (cols new : Cols α) (hne : cols ≠ []) : nrows (cols ++ new) = nrows cols := by
+  cases cols with
+  | nil => exact absurd rfl hne
+  | cons c cs => rfl
+
+theorem filterMap_getElem?_rows (cols : Cols α) (hw : WF cols) (hne : cols ≠ []) (j : Nat) (c : List α)
+    (hc : cols[j]? = some c) : (toRows cols).filterMap (fun r => r[j]?) = c := by
+  have h := toRows_column (nrows cols) cols hw hne j c hc
+  have : (toRows cols).filterMap (fun r => r[j]?) = ((toRows cols).map (fun r => r[j]?)).filterMap id := by
+    rw [List.filterMap_map]; rfl
+  rw [this, h, List.filterMap_map]
+  simp
+
+/-- **one operation, columns = entries**: on a rectangular table with at least one field, every operation of the
+program language does to the columns exactly what its row-wise reading does to the list of entries - the same
+result rows, the same number of fields, and it raises in exactly the same situations -/
+theorem step_refines_rows (cols : Cols α) (op : Op α) (hw : WF cols) (hne : cols ≠ []) :
+    stepRows (cols.length, toRows cols) op = (step cols op).map (fun r => (r.length, toRows r)) := by
+  have hlen := toRows_length (nrows cols) cols hw hne
+  cases op with
+  | take ix =>
+    simp only [stepRows, step]
+    by_cases hix : ∀ i ∈ ix, i < nrows cols
+    · rw [take_eq_some ix cols hix]
+      have := take_rows ix cols _ hw hne (take_eq_some ix cols hix)
+      simp [this]
+    · have h1 : take ix cols = none := by
+        unfold take; rw [if_neg (by simpa using hix)]
+      have h2 : takeRows ix (toRows cols) = none := by
+        unfold takeRows; rw [hlen, if_neg (by simpa using hix)]
+      simp [h1, h2]
+  | mask m =>
+    simp only [stepRows, step, hlen]
+    by_cases hm : m.length = nrows cols
+    · have hix : ∀ i ∈ maskIdx m, i < nrows cols := fun i hi => hm ▸ maskIdx_lt m i hi
+      have hmk : mask m cols = some (cols.map (gather (maskIdx m))) := by
+        unfold mask; rw [if_pos hm, take_eq_some _ cols hix]
+      rw [if_pos hm, hmk]
+      simp [mask_rows m cols _ hw hne hmk]
+    · have : mask m cols = none := by unfold mask; rw [if_neg hm]
+      rw [if_neg hm, this]; rfl
+  | concat o =>
+    simp only [stepRows, step]
+    split
+    · rename_i hc
+      simp only [Bool.and_eq_true, beq_iff_eq] at hc
+      have hwo : WF o := (wfB_iff o).mp hc.1
+      simp only [Option.map_some, Option.some.injEq, Prod.mk.injEq]
+      refine ⟨by simp [concat, hc.2], ?_⟩
+      exact (concat_rows _ _ cols o hw hwo hc.2.symm hne).symm
+    · rfl
+  | concatL o =>
+    simp only [stepRows, step]
+    split
+    · rename_i hc
+      simp only [Bool.and_eq_true, beq_iff_eq] at hc
+      have hwo : WF o := (wfB_iff o).mp hc.1
+      have hone : o ≠ [] := by
+        intro e; rw [e] at hc; apply hne; exact List.length_eq_zero_iff.mp hc.2.symm
+      simp only [Option.map_some, Option.some.injEq, Prod.mk.injEq]
+      refine ⟨by simp [concat, hc.2], ?_⟩
+      exact (concat_rows _ _ o cols hwo hw hc.2 hone).symm
+    · rfl
+  | sortBy j key =>
+    simp only [stepRows, step, sortBy]
+    by_cases hj : j < cols.length
+    · rw [if_pos hj, List.getElem?_eq_getElem hj]
+      simp only
+      have hc : cols[j]? = some cols[j] := List.getElem?_eq_getElem hj
+      rw [filterMap_getElem?_rows cols hw hne j _ hc]
+      have hcl : cols[j].length = nrows cols := hw _ (List.getElem_mem _)
+      have hix : ∀ i ∈ argsort (cols[j].map key), i < nrows cols := by
+        intro i hi
+        have := argsort_lt _ i hi
+        simpa [hcl] using this
+      rw [take_eq_some _ cols hix]
+      have := take_rows _ cols _ hw hne (take_eq_some _ cols hix)
+      simp [this]
+    · rw [if_neg hj, List.getElem?_eq_none (by omega)]
+      rfl
+  | predMask j p =>
+    simp only [stepRows, step]
+    by_cases hj : j < cols.length
+    · have hc : cols[j]? = some cols[j] := List.getElem?_eq_getElem hj
+      have hcl : cols[j].length = nrows cols := hw _ (List.getElem_mem _)
+      have hix : ∀ i ∈ maskIdx (cols[j].map p), i < nrows cols := by
+        intro i hi
+        have := maskIdx_lt _ i hi
+        simpa [hcl] using this
+      have hpm : predMask p j cols = some (cols.map (gather (maskIdx (cols[j].map p)))) := by
+        unfold predMask mask
+        rw [hc]
+        simp only [List.length_map, hcl, ↓reduceIte]
+        exact take_eq_some _ cols hix
+      rw [if_pos hj, hpm]
+      simp only [Option.map_some, Option.some.injEq, Prod.mk.injEq]
+      refine ⟨by simp, ?_⟩
+      rw [predMask_rows p j cols _ hw hne hpm]
+      congr 1
+    · have : predMask p j cols = none := by
+        unfold predMask; rw [List.getElem?_eq_none (by omega)]
+      rw [if_neg hj, this]; rfl
+  | replace j c =>
+    simp only [stepRows, step, replaceCol, hlen]
+    by_cases h1 : cols.length = 1 ∧ j = 0
+    · obtain ⟨hl, rfl⟩ := h1
+      obtain ⟨c0, rfl⟩ : ∃ c0, cols = [c0] := List.length_eq_one_iff.mp hl
+      simp [wfB, nrows, toRows]
+    · have hcond : ((cols.length == 1) && (j == 0)) = false := by
+        simp only [Bool.and_eq_false_iff, beq_eq_false_iff_ne]
+        by_cases hl : cols.length = 1
+        · exact Or.inr (fun e => h1 ⟨hl, e⟩)
+        · exact Or.inl hl
+      rw [hcond]
+      simp only [Bool.false_eq_true, ↓reduceIte]
+      by_cases hj : j < cols.length
+      · have h2 : 2 ≤ cols.length := by
+          have : cols.length ≠ 0 := fun e => hne (List.length_eq_zero_iff.mp e)
+          by_cases hl : cols.length = 1
+          · exfalso; exact h1 ⟨hl, by omega⟩
+          · omega
+        have hiff := wfB_set_iff (nrows cols) cols j c hw hj h2
+        by_cases hc : c.length = nrows cols
+        · rw [if_pos (by simp [hj, hc]), if_pos (by simp [hj, hiff.mpr hc])]
+          simp [replace_rows (nrows cols) cols j c hw hne hc]
+        · have : wfB (cols.set j c) = false := by
+            cases hb : wfB (cols.set j c)
+            · rfl
+            · exact absurd (hiff.mp hb) hc
+          rw [if_neg (by simp [hc]), if_neg (by simp [this])]
+          rfl
+      · rw [if_neg (by simp [hj]), if_neg (by simp [hj])]
+        rfl
+  | addFields new =>
+    simp only [stepRows, step, addFields, hlen]
+    have hwf : wfB (cols ++ new) = new.all (fun c => c.length == nrows cols) := by
+      have hall : cols.all (fun c => c.length == nrows cols) = true := by
+        simpa [wfB] using (wfB_iff cols).mpr hw
+      simp only [wfB, nrows_append cols new hne, List.all_append, hall, Bool.true_and]
+    rw [hwf]
+    split
+    · rename_i hall
+      simp only [Option.map_some, Option.some.injEq, Prod.mk.injEq]
+      refine ⟨by simp, ?_⟩
+      by_cases hn : new = []
+      · subst hn; simp
+      · have hnw : WFn (nrows cols) new := by
+          intro c hc
+          have := List.all_eq_true.mp hall c hc
+          simpa using this
+        have : new.isEmpty = false := by cases new <;> simp_all
+        rw [this]
+        simp only [Bool.false_eq_true, ↓reduceIte]
+        exact (addFields_rows (nrows cols) cols new hw hnw hne hn).symm
+    · rfl
+
+/-- **programs, columns = entries** (`run_refines_rows`): running any program of table operations on the columns
+of a rectangular table with at least one field gives - in the result's number of fields, in its list of entries,
+and in whether it raises - exactly what the row-wise interpreter (`runRows`, the reading of a table as a list of
+NumPy records) gives on the table's entries -/
+theorem run_refines_rows (ops : List (Op α)) (cols : Cols α) (hw : WF cols) (hne : cols ≠ []) :
+    runRows ops (cols.length, toRows cols) = (run ops cols).map (fun r => (r.length, toRows r)) := by
+  induction ops generalizing cols with
+  | nil => simp [runRows, run]
+  | cons op ops ih =>
+    simp only [runRows, run, step_refines_rows cols op hw hne]
+    cases hs : step cols op with
+    | none => simp
+    | some r =>
+      have hwr := step_wf cols r op hw hs
+      have hner : r ≠ [] := by
+        intro e
+        have := step_width cols r op hs
+        rw [e] at this
+        exact hne (List.length_eq_zero_iff.mp (by simpa using this))
+      simp only [Option.map_some]
+      exact ih r hwr hner
+
+
 end C19
